@@ -2,7 +2,13 @@ from dataclasses import dataclass
 
 from mypy.nodes import Block, CallExpr, ExpressionStmt, ForStmt, MemberExpr, NameExpr
 
-from refurb.checks.common import get_mypy_type, is_equivalent, is_same_type, stringify
+from refurb.checks.common import (
+    get_mypy_type,
+    is_equivalent,
+    is_same_type,
+    stringify,
+    stringify_operand,
+)
 from refurb.error import Error
 
 
@@ -60,7 +66,7 @@ def check(node: ForStmt, errors: list[Error]) -> None:
             new_func = "update" if name == "add" else "difference_update"
 
             source = stringify(source)  # type: ignore
-            set_expr = stringify(set_expr)  # type: ignore
+            set_expr = stringify_operand(set_expr, ".")  # type: ignore
 
             if isinstance(arg, NameExpr):
                 if not is_equivalent(index, arg):
